@@ -506,8 +506,8 @@ impl RunState {
             // puts
             0x22 => {
                 // could probably rewrite with iterators but idk if worth
-                for addr in self.reg(0).. {
-                    let chr_raw = self.mem(addr);
+                for offset in 0..=u16::MAX {
+                    let chr_raw = self.mem(self.reg(0).wrapping_add(offset));
                     let chr_ascii = (chr_raw & 0xFF) as u8 as char;
                     if chr_ascii == '\0' {
                         break;
@@ -525,8 +525,8 @@ impl RunState {
             }
             // putsp
             0x24 => {
-                'string: for addr in self.reg(0).. {
-                    let chr_raw = self.mem(addr);
+                'string: for offset in 0..=u16::MAX {
+                    let chr_raw = self.mem(self.reg(0).wrapping_add(offset));
                     // Packed string: bits [7:0] are written first, then bits [15:8]
                     for chr in [chr_raw & 0xFF, chr_raw >> 8] {
                         let chr_ascii = chr as u8 as char;
